@@ -75,6 +75,12 @@ Theorem C04_deadline_is_start_plus_limit :
 Proof. exact deadline_is_start_plus_limit. Qed.
 Print Assumptions C04_deadline_is_start_plus_limit.
 
+(* a poll interrupted by a signal handler of the caller (EINTR), like any failing call, ends the read with that error
+   at once: it is not reported as a timeout and is not answered by waiting again with the old timeout *)
+Theorem C04_syscall_error_ends_read : forall s e, step s (RErr e) = ret s (Some (EOs e)).
+Proof. exact syscall_error_ends_read. Qed.
+Print Assumptions C04_syscall_error_ends_read.
+
 Module Win.
 Import SP.Lib.WinComm SP.Proofs.WinCommProofs.
 Local Open Scope nat_scope.
